@@ -8,6 +8,12 @@ checks, na = [], []
 for pid in sorted(src["props"]):
     p = src["props"][pid]
     if pid in src["claimed"]:
+        # the level is declared by the test binary (evid.Config.Level) and written into the
+        # evidence file: the manifest follows it so the two never disagree
+        try:
+            p["level"] = json.load(open("evidence/%s.json" % pid))["level"]
+        except Exception:
+            pass
         checks.append({
             "property_id": pid, "quick_cmd": "./check %s quick" % pid, "thorough_cmd": "./check %s thorough" % pid,
             "evidence_file": "evidence/%s.json" % pid, "replay_cmd_template": "./check %s quick --replay {path}" % pid,
